@@ -16,7 +16,7 @@ if ROOT not in sys.path:
     sys.path.insert(0, ROOT)
 
 from . import source as SRC  # noqa: E402
-from .api import REGISTRY, VerifyTask  # noqa: E402
+from .api import REGISTRY, LemmaTask, VerifyTask  # noqa: E402
 from .engine import Config  # noqa: E402
 
 KNOWN_FILE = os.path.join(ROOT, "known_findings.jsonl")
@@ -58,8 +58,8 @@ def _run_task(arg):
             cfg.oblig_timeout_ms = 60000
         from .engine import Explorer
 
-        t = VerifyTask(c, cfg)
-        t.name = f"{pid}/{c.target.split(':')[1]}"
+        t = LemmaTask(c, cfg) if getattr(c, "is_lemma", False) else VerifyTask(c, cfg)
+        t.name = f"{pid}/{c.target.split(':')[1]}" if not getattr(c, "is_lemma", False) else f"{pid}/{c.target}"
         orig_init = Explorer.__init__
 
         def patched(self, config=None):
@@ -130,6 +130,16 @@ def native_replay(c, model, clause=None):
     Returns dict(outcome=confirmed|not-reproduced|error, ...)."""
     from .seqs import View
 
+    if getattr(c, "is_lemma", False):
+        from .seqs import View as _V
+
+        a = _V(model)
+        try:
+            ok_pre = bool(c.requires(a))
+            bad = [lab for lab, f in c._gen(c.claim(a)) if not f] if ok_pre else []
+        except Exception as e:  # noqa: BLE001
+            return {"input": _jsonable(model), "outcome": "error", "error": f"{type(e).__name__}: {e}"}
+        return {"input": _jsonable(model), "outcome": "confirmed" if bad else "not-reproduced", "required": f"lemma clauses false natively: {bad}"}
     ref = SRC.resolve(c.target)
     mod = ref.mod.real
     kwargs = {k: v for k, v in model.items() if k != "self"}
